@@ -455,6 +455,10 @@ def gen_event(rng, st, now):
         return ["nni", frm, rng.choice([None, term, term, term, term - 1, term + 1]), rng.randrange(2),
                 max(cur + 1 + rng.choice([-2, -1, 0, 1, 3]), 0), rng.randrange(2), now]
     k = rng.choice(["conn", "disc", "roconn", "rodisc"])
+    if k in ("roconn", "rodisc"):
+        # the transport reports read-only (dis)connects for observers only; ids 5-7 are never voters here
+        # (a read-only disconnect of a voter id would drop the voter's matchIndex: KeysOK, see the model header)
+        return [k, rng.choice([5, 6, 7])]
     return [k, rng.choice(anyone)]
 
 
